@@ -6,66 +6,21 @@
   front ends (`parse()` with a root-less file, `ArgumentParser` with a dest-keyed file).
 
   The full statement (without `fileSafe`) does not hold for the code as it is: `c15_full_witness_items`,
-  `c15_full_witness_none`, `c15_full_witness_class_none`, `c15_full_witness_literal` refute it on the open findings.  `fileSafe` is
-  the decidable predicate that names exactly what is excluded.
+  `c15_full_witness_none`, `c15_full_witness_class_none`, `c15_full_witness_literal`, `c15_full_witness_union` refute it
+  on the five open findings.  Two decidable predicates carry every exclusion: `fileSafe` (defects of the code; the
+  harness asserts on real loops, op `cl.filesafe`, that it is true exactly when the real result equals `x`) and `inModel`
+  (limits of the model: Any, Union items, Optional[Literal], Enum-valued Literals, paths to normalise).  `Conforms` is
+  `inModel` + the typing `HasType` + the shape; `c15_loop_syntactic` replaces the one semantic clause of `fileSafe`
+  (`quietNone`) by the syntactic `defaultsQuiet`; `c15_loop_decidable` takes all hypotheses in executable form.
+  Not proved here: the four file formats and the two routes (`config_path=` / `--config_path`) are exercised on real
+  runs only (sampled), the model has one `set_defaults` entry point.
 -/
 import SpVerif.Model.ConfigLoop
 namespace SpVerif.C15
 open SpVerif SpVerif.ConfigLoop
 
-/-! ### the grammar and typing predicates (all decidable) -/
-
-/-- item types of the intersection of the command-line and the serialization grammar -/
-def itemOk : ITy → Bool
-  | .base .any => false
-  | .base _ => true
-  | .union _ => false
-
-/-- `InCliGrammar`: the annotation is one the command-line model covers and whose values `to_dict` writes -/
-def InCliGrammar (t : FTy) : Bool :=
-  match t.inner with
-  | .sc i => itemOk i
-  | .literal vals => !t.optional && (vals.mapM literalName).isSome
-  | .list i => itemOk i && (containerConv i).isSome
-  | .tuple items => items.all itemOk && (tupleConv items).isSome
-  | .vtuple i => itemOk i
-
-/-- the model's `Path(s)` keeps `s` (no normalisation needed) -/
-def pathGood (s : Str) : Bool := parsePath s == .ok (.path s)
-
-def hasBTy : BTy → Scalar → Bool
-  | .int, .int _ => true
-  | .float, .float _ => true
-  | .str, .str _ => true
-  | .bool, .bool _ => true
-  | .path, .path s => pathGood s
-  | .enum c ms, .enum c' n => c == c' && ms.contains n
-  | _, _ => false
-
-def hasITy : ITy → Scalar → Bool
-  | .base b, s => hasBTy b s
-  | .union _, _ => false
-
-def hasItems : List ITy → List Scalar → Bool
-  | [], [] => true
-  | t :: ts, s :: ss => hasITy t s && hasItems ts ss
-  | _, _ => false
-
-/-- a value a `Literal[…]` annotation admits (str / int / bool values) -/
-def litMember (vals : List Scalar) (s : Scalar) : Bool :=
-  match s with
-  | .str _ => vals.contains s
-  | .int _ => vals.contains s
-  | .bool _ => vals.contains s
-  | _ => false
-
-/-- a string literal value is found back by its name: `choice_dict = {str(v): v for v in values}` keeps the LAST value of
-    each name (field_wrapper.py:891), so a str value shadowed by a later value with the same `str()` is lost (finding
-    C15-literal-name-collision); non-str values are never looked up -/
-def litSafe (vals : List Scalar) (s : Scalar) : Bool :=
-  match s with
-  | .str n => vals.reverse.find? (fun v => literalName v = some n) == some s
-  | _ => true
+/-! The decidable predicates (`InCliGrammar`, `inModel`, `HasType`, `leafSafe`, `fileSafe`, `conformsB`, …) live in
+    `Model/ConfigLoop.lean` so that the driver can evaluate them (op `cl.filesafe`). -/
 
 /-- what the literal lemma needs: membership, and for a str value that its name finds it back -/
 def litOk (vals : List Scalar) (s : Scalar) : Bool :=
@@ -77,51 +32,7 @@ def litOk (vals : List Scalar) (s : Scalar) : Bool :=
 
 theorem litOk_of (vals : List Scalar) (s : Scalar) (hm : litMember vals s = true) (hs : litSafe vals s = true) :
     litOk vals s = true := by
-  cases s <;> simp_all [litMember, litSafe, litOk]
-
-def hasNTy : NTy → Val → Bool
-  | .sc i, .sc s => hasITy i s
-  | .literal vals, .sc s => litMember vals s
-  | .list i, .list l => l.all (hasITy i)
-  | .tuple items, .tuple l => hasItems items l
-  | .vtuple i, .tuple l => l.all (hasITy i)
-  | _, _ => false
-
-/-- `HasType t v`: `v` is a value of annotation `t` -/
-def HasType (t : FTy) (v : Val) : Bool :=
-  (t.optional && v == .sc .none) || hasNTy t.inner v
-
-/-- an item that `encode` leaves unchanged (today Enum members and Paths are written as `str` and the items of a
-    list default are never converted back: finding C15-D17a) -/
-def safeItem : Scalar → Bool
-  | .enum _ _ => false
-  | .path _ => false
-  | _ => true
-
-def itemsSafe : Val → Bool
-  | .sc _ => true
-  | .list l => l.all safeItem
-  | .tuple l => l.all safeItem
-
-/-- the Literal clause of the exclusion, as a predicate of annotation and value -/
-def literalSafe (t : FTy) (v : Val) : Bool :=
-  match t.inner, v with
-  | .literal vals, .sc s => litSafe vals s
-  | _, _ => true
-
-/-- a None needs an Optional annotation -/
-def defaultOk (f : FieldSpec) : Bool := f.ty.optional || !(f.default == .value (.sc .none))
-
-/-- what the cascade yields for a leaf that the file does not mention is None (finding C15-D17b excludes the rest) -/
-def noneDefault (pd : PD) (f : FieldSpec) : Bool :=
-  match cascade pd f none with
-  | some .missing => true
-  | some (.value (.sc .none)) => true
-  | _ => false
-
-/-- `leafSafe`: the named exclusions for one leaf -/
-def leafSafe (pd : PD) (f : FieldSpec) (v : Val) : Bool :=
-  itemsSafe v && literalSafe f.ty v && (!(v == .sc .none) || noneDefault pd f)
+  cases s <;> simp_all [litMember, litValOk, litSafe, litOk]
 
 /-! ### encode facts -/
 
@@ -139,8 +50,10 @@ theorem encode_ne_none (v : Val) (h : v ≠ .sc .none) : encode v ≠ .sc .none 
   | list l => simp [encode]
   | tuple l => simp [encode]
 
+/-! ### one leaf, by type constructor
 
-/-! ### one leaf, by type constructor -/
+  `dflt` is the field's *definition* default and is arbitrary in every lemma — also `None` for a non-Optional annotation
+  (`a: int = None`), where `get_arg_options` takes the Optional branch (`argOptionsEff`). -/
 
 theorem pathGood_eq (s : Str) (h : pathGood s = true) : parsePath s = .ok (.path s) := by
   simpa [pathGood] using h
@@ -148,59 +61,91 @@ theorem pathGood_eq (s : Str) (h : pathGood s = true) : parsePath s = .ok (.path
 /-- plain scalars (int, float, str, bool, Path, Enum), non-Optional: per-constructor agreement of `encode` with the
     default path (Enum: name ↔ member through `choices`/`postprocess`; Path: `str` ↔ `Path` through `type=`) -/
 theorem leaf_scalar (fenv : FEnv) (force : Bool) (name : Str) (b : BTy) (dflt : DefaultV) (al : List Str) (s : Scalar)
-    (hd : dflt ≠ .value (.sc .none)) (ht : hasBTy b s = true) :
+    (ht : hasBTy b s = true) (hp : scalarPathGood s = true) :
     leafWithDefault fenv force ⟨name, ⟨.sc (.base b), false⟩, dflt, al⟩ (.value (encode (.sc s)))
       = .ok (.sc s, decide (Val.sc s = encode (.sc s))) := by
-  cases b <;> cases s <;> simp [hasBTy] at ht <;>
-    simp_all [leafWithDefault, argOptions, encode, encScalar, defaultVal, emptyArgvValue, postprocessC, postprocess, bconvOf,
-      Conv.apply, BConv.apply, pathGood_eq]
+  by_cases hd : dflt = .value (.sc .none)
+  · subst hd
+    cases b <;> cases s <;> simp [hasBTy] at ht <;>
+      simp_all [leafWithDefault, argOptionsEff, argOptions, encode, encScalar, defaultVal, emptyArgvValue, postprocessC,
+        postprocess, bconvOf, convOfItem, Conv.apply, BConv.apply, scalarPathGood, pathGood_eq]
+  · cases b <;> cases s <;> simp [hasBTy] at ht <;>
+      simp_all [leafWithDefault, argOptionsEff, argOptions, encode, encScalar, defaultVal, emptyArgvValue, postprocessC,
+        postprocess, bconvOf, Conv.apply, BConv.apply, scalarPathGood, pathGood_eq]
 
 /-- Optional scalars holding a value: the `type=` of the wrapped type converts the string default -/
 theorem leaf_opt_scalar (fenv : FEnv) (force : Bool) (name : Str) (b : BTy) (dflt : DefaultV) (al : List Str) (s : Scalar)
-    (ht : hasBTy b s = true) :
+    (ht : hasBTy b s = true) (hp : scalarPathGood s = true) :
     leafWithDefault fenv force ⟨name, ⟨.sc (.base b), true⟩, dflt, al⟩ (.value (encode (.sc s)))
       = .ok (.sc s, decide (Val.sc s = encode (.sc s))) := by
   cases b <;> cases s <;> simp [hasBTy] at ht <;>
-    simp_all [leafWithDefault, argOptions, encode, encScalar, defaultVal, emptyArgvValue, postprocessC, postprocess, bconvOf,
-      convOfItem, Conv.apply, BConv.apply, pathGood_eq]
+    simp_all [leafWithDefault, argOptionsEff, argOptions, encode, encScalar, defaultVal, emptyArgvValue, postprocessC,
+      postprocess, bconvOf, convOfItem, Conv.apply, BConv.apply, scalarPathGood, pathGood_eq]
 
+/-- a member of a Union of int / float / str / bool is one of those four kinds of value -/
+theorem union_value_kind (alts : List BTy) (s : Scalar) (ha : alts.all unionAltOk = true)
+    (ht : alts.any (fun b => hasBTy b s) = true) :
+    (∃ i, s = .int i) ∨ (∃ r, s = .float r) ∨ (∃ t, s = .str t) ∨ (∃ b, s = .bool b) := by
+  rw [List.any_eq_true] at ht
+  obtain ⟨b, hb, hbs⟩ := ht
+  have hok := (List.all_eq_true.mp ha) b hb
+  cases b <;> cases s <;> simp_all [unionAltOk, hasBTy]
+
+/-- `Union[...]` (Optional or not): non-str members are stored untouched; a str member is parsed again by the Union's
+    `type=` and survives exactly when `unionSafe` holds -/
+theorem leaf_union (fenv : FEnv) (force : Bool) (name : Str) (alts : List BTy) (opt : Bool) (dflt : DefaultV) (al : List Str)
+    (s : Scalar) (ha : alts.all unionAltOk = true) (ht : alts.any (fun b => hasBTy b s) = true)
+    (hs : unionSafe fenv ⟨.sc (.union alts), opt⟩ (.sc s) = true) :
+    leafWithDefault fenv force ⟨name, ⟨.sc (.union alts), opt⟩, dflt, al⟩ (.value (encode (.sc s))) = .ok (.sc s, true) := by
+  rcases union_value_kind alts s ha ht with ⟨i, rfl⟩ | ⟨r, rfl⟩ | ⟨t, rfl⟩ | ⟨b, rfl⟩
+  · by_cases hd : dflt = .value (.sc .none) <;> cases opt <;>
+      simp_all [leafWithDefault, argOptionsEff, argOptions, encode, encScalar, defaultVal, emptyArgvValue, postprocessC,
+        postprocess, convOfItem]
+  · by_cases hd : dflt = .value (.sc .none) <;> cases opt <;>
+      simp_all [leafWithDefault, argOptionsEff, argOptions, encode, encScalar, defaultVal, emptyArgvValue, postprocessC,
+        postprocess, convOfItem]
+  · have hu : unionApply fenv (alts.map bconvOf) t = .ok (.str t) := by simpa [unionSafe] using hs
+    by_cases hd : dflt = .value (.sc .none) <;> cases opt <;>
+      simp_all [leafWithDefault, argOptionsEff, argOptions, encode, encScalar, defaultVal, emptyArgvValue, postprocessC,
+        postprocess, convOfItem, Conv.apply]
+  · by_cases hd : dflt = .value (.sc .none) <;> cases opt <;>
+      simp_all [leafWithDefault, argOptionsEff, argOptions, encode, encScalar, defaultVal, emptyArgvValue, postprocessC,
+        postprocess, convOfItem]
 
 /-- `List[T]`: the list default is stored as it is — equal to `x`'s list exactly when no item needed conversion -/
 theorem leaf_list (fenv : FEnv) (force : Bool) (name : Str) (item : ITy) (opt : Bool) (dflt : DefaultV) (al : List Str)
-    (l : List Scalar) (hc : (containerConv item).isSome = true) (hd : opt = true ∨ dflt ≠ .value (.sc .none))
-    (hs : l.all safeItem = true) :
+    (l : List Scalar) (hc : (containerConv item).isSome = true) (hs : l.all safeItem = true) :
     leafWithDefault fenv force ⟨name, ⟨.list item, opt⟩, dflt, al⟩ (.value (encode (.list l))) = .ok (.list l, true) := by
   obtain ⟨c, hc'⟩ := Option.isSome_iff_exists.mp hc
-  cases opt <;>
-    simp_all [leafWithDefault, argOptions, encode, map_encScalar_safe, defaultVal, emptyArgvValue, postprocessC, postprocess,
-      tupleToList]
+  by_cases hd : dflt = .value (.sc .none) <;> cases opt <;>
+    simp_all [leafWithDefault, argOptionsEff, argOptions, encode, map_encScalar_safe, defaultVal, emptyArgvValue, postprocessC,
+      postprocess, tupleToList]
 
 /-- `Tuple[T1, …, Tn]`: written as a list, `postprocess` turns the list default back into a tuple -/
 theorem leaf_tuple (fenv : FEnv) (force : Bool) (name : Str) (items : List ITy) (opt : Bool) (dflt : DefaultV) (al : List Str)
-    (l : List Scalar) (hc : (tupleConv items).isSome = true) (hd : opt = true ∨ dflt ≠ .value (.sc .none))
-    (hs : l.all safeItem = true) :
+    (l : List Scalar) (hc : (tupleConv items).isSome = true) (hs : l.all safeItem = true) :
     leafWithDefault fenv force ⟨name, ⟨.tuple items, opt⟩, dflt, al⟩ (.value (encode (.tuple l))) = .ok (.tuple l, false) := by
   obtain ⟨c, hc'⟩ := Option.isSome_iff_exists.mp hc
-  cases opt <;>
-    simp_all [leafWithDefault, argOptions, encode, map_encScalar_safe, defaultVal, emptyArgvValue, postprocessC, postprocess,
-      listToTuple]
+  by_cases hd : dflt = .value (.sc .none) <;> cases opt <;>
+    simp_all [leafWithDefault, argOptionsEff, argOptions, encode, map_encScalar_safe, defaultVal, emptyArgvValue, postprocessC,
+      postprocess, listToTuple]
 
 /-- `Tuple[T, ...]` -/
 theorem leaf_vtuple (fenv : FEnv) (force : Bool) (name : Str) (item : ITy) (opt : Bool) (dflt : DefaultV) (al : List Str)
-    (l : List Scalar) (hd : opt = true ∨ dflt ≠ .value (.sc .none)) (hs : l.all safeItem = true) :
+    (l : List Scalar) (hs : l.all safeItem = true) :
     leafWithDefault fenv force ⟨name, ⟨.vtuple item, opt⟩, dflt, al⟩ (.value (encode (.tuple l))) = .ok (.tuple l, false) := by
-  cases opt <;>
-    simp_all [leafWithDefault, argOptions, encode, map_encScalar_safe, defaultVal, emptyArgvValue, postprocessC, postprocess,
-      listToTuple]
+  by_cases hd : dflt = .value (.sc .none) <;> cases opt <;>
+    simp_all [leafWithDefault, argOptionsEff, argOptions, encode, map_encScalar_safe, defaultVal, emptyArgvValue, postprocessC,
+      postprocess, listToTuple]
 
-/-- `Literal[…]`: a string value is found back by its name, other values are kept -/
+/-- `Literal[…]`: a string value is found back by its name (last value of that name), other values are kept -/
 theorem leaf_literal (fenv : FEnv) (force : Bool) (name : Str) (vals : List Scalar) (dflt : DefaultV) (al : List Str)
-    (s : Scalar) (hn : (vals.mapM literalName).isSome = true) (hd : dflt ≠ .value (.sc .none)) (ht : litOk vals s = true) :
+    (s : Scalar) (hn : (vals.mapM literalName).isSome = true) (ht : litOk vals s = true) :
     leafWithDefault fenv force ⟨name, ⟨.literal vals, false⟩, dflt, al⟩ (.value (encode (.sc s))) = .ok (.sc s, true) := by
   obtain ⟨names, hn'⟩ := Option.isSome_iff_exists.mp hn
-  cases s <;> simp [litOk] at ht <;>
-    simp_all [leafWithDefault, argOptions, encode, encScalar, defaultVal, emptyArgvValue, postprocessC, postprocess,
-      Conv.apply, BConv.apply]
+  by_cases hd : dflt = .value (.sc .none) <;> cases s <;> simp [litOk] at ht <;>
+    simp_all [leafWithDefault, argOptionsEff, argOptions, encode, encScalar, defaultVal, emptyArgvValue, postprocessC,
+      postprocess, Conv.apply, BConv.apply]
 
 /-- an Optional leaf whose effective default is None (or missing) yields None -/
 theorem leaf_opt_none (fenv : FEnv) (force : Bool) (name : Str) (inner : NTy) (dflt : DefaultV) (al : List Str) (eff : DefaultV)
@@ -210,21 +155,20 @@ theorem leaf_opt_none (fenv : FEnv) (force : Bool) (name : Str) (inner : NTy) (d
   | literal vals => simp [InCliGrammar] at hg
   | sc i =>
     rcases he with he | he <;> subst he <;>
-      simp [leafWithDefault, argOptions, defaultVal, emptyArgvValue, postprocessC, postprocess]
+      simp [leafWithDefault, argOptionsEff, argOptions, defaultVal, emptyArgvValue, postprocessC, postprocess]
   | list i =>
     simp only [InCliGrammar, Bool.and_eq_true] at hg
     obtain ⟨c, hc'⟩ := Option.isSome_iff_exists.mp hg.2
     rcases he with he | he <;> subst he <;>
-      simp [leafWithDefault, argOptions, defaultVal, emptyArgvValue, postprocessC, postprocess, hc']
+      simp [leafWithDefault, argOptionsEff, argOptions, defaultVal, emptyArgvValue, postprocessC, postprocess, hc']
   | tuple items =>
     simp only [InCliGrammar, Bool.and_eq_true] at hg
     obtain ⟨c, hc'⟩ := Option.isSome_iff_exists.mp hg.2
     rcases he with he | he <;> subst he <;>
-      simp [leafWithDefault, argOptions, defaultVal, emptyArgvValue, postprocessC, postprocess, hc', listToTuple]
+      simp [leafWithDefault, argOptionsEff, argOptions, defaultVal, emptyArgvValue, postprocessC, postprocess, hc', listToTuple]
   | vtuple i =>
     rcases he with he | he <;> subst he <;>
-      simp [leafWithDefault, argOptions, defaultVal, emptyArgvValue, postprocessC, postprocess, listToTuple]
-
+      simp [leafWithDefault, argOptionsEff, argOptions, defaultVal, emptyArgvValue, postprocessC, postprocess, listToTuple]
 
 theorem cascade_some_ne (pd : PD) (f : FieldSpec) (w : Val) (h : w ≠ .sc .none) :
     cascade pd f (some w) = some (.value w) := by
@@ -237,19 +181,24 @@ theorem hasNTy_ne_none (t : NTy) (h : hasNTy t (.sc .none) = true) : False := by
   cases t with
   | sc i => cases i with
     | base b => cases b <;> simp [hasNTy, hasITy, hasBTy] at h
-    | union a => simp [hasNTy, hasITy] at h
-  | literal vals => simp [hasNTy, litMember] at h
+    | union a =>
+      simp only [hasNTy, hasITy, List.any_eq_true] at h
+      obtain ⟨b, -, hb⟩ := h
+      cases b <;> simp [hasBTy] at hb
+  | literal vals => simp [hasNTy, litMember, litValOk] at h
   | list i => simp [hasNTy] at h
   | tuple items => simp [hasNTy] at h
   | vtuple i => simp [hasNTy] at h
 
 /-- one leaf: the value `save` wrote comes back as the value `x` held -/
 theorem leaf_loop (fenv : FEnv) (force : Bool) (pd : PD) (f : FieldSpec) (v : Val)
-    (hg : InCliGrammar f.ty = true) (hd : defaultOk f = true) (ht : HasType f.ty v = true)
-    (hs : leafSafe pd f v = true) :
+    (hm : inModel f v = true) (ht : HasType f.ty v = true) (hs : leafSafe fenv pd f v = true) :
     ∃ eq, parseLeaf fenv force pd f (some (.val (encode v))) = .ok (v, eq) := by
   obtain ⟨name, ⟨inner, opt⟩, dflt, al⟩ := f
+  simp only [inModel, Bool.and_eq_true] at hm
+  obtain ⟨hg, hpg⟩ := hm
   simp only [leafSafe, Bool.and_eq_true] at hs
+  obtain ⟨⟨⟨hitems, hlit⟩, hunion⟩, hnone⟩ := hs
   by_cases hv : v = .sc .none
   · -- None: only an Optional annotation holds it, and the cascade gives None
     subst hv
@@ -260,7 +209,7 @@ theorem leaf_loop (fenv : FEnv) (force : Bool) (pd : PD) (f : FieldSpec) (v : Va
         simp only [HasType, Bool.false_and, Bool.false_or] at ht
         exact (hasNTy_ne_none inner ht).elim
     subst hopt
-    have hn : noneDefault pd ⟨name, ⟨inner, true⟩, dflt, al⟩ = true := by simpa using hs.2
+    have hn : noneDefault pd ⟨name, ⟨inner, true⟩, dflt, al⟩ = true := by simpa using hnone
     simp only [parseLeaf, encode, encScalar, cascade_some_none]
     simp only [noneDefault] at hn
     cases hc : cascade pd ⟨name, ⟨inner, true⟩, dflt, al⟩ none with
@@ -283,10 +232,6 @@ theorem leaf_loop (fenv : FEnv) (force : Bool) (pd : PD) (f : FieldSpec) (v : Va
       · exact (hv ht.2).elim
       · exact ht
     simp only [parseLeaf, cascade_some_ne pd _ (encode v) (encode_ne_none v hv)]
-    have hd' : opt = true ∨ dflt ≠ .value (.sc .none) := by
-      cases opt with
-      | true => exact Or.inl rfl
-      | false => right; simpa [defaultOk] using hd
     cases inner with
     | sc i =>
       cases v with
@@ -294,11 +239,17 @@ theorem leaf_loop (fenv : FEnv) (force : Bool) (pd : PD) (f : FieldSpec) (v : Va
         cases i with
         | base b =>
           cases opt with
-          | true => exact ⟨_, leaf_opt_scalar fenv force name b dflt al s (by simpa [hasNTy, hasITy] using hty)⟩
+          | true =>
+            exact ⟨_, leaf_opt_scalar fenv force name b dflt al s (by simpa [hasNTy, hasITy] using hty)
+              (by simpa [pathsGood] using hpg)⟩
           | false =>
-            exact ⟨_, leaf_scalar fenv force name b dflt al s (by simpa [defaultOk] using hd)
-              (by simpa [hasNTy, hasITy] using hty)⟩
-        | union a => simp [hasNTy, hasITy] at hty
+            exact ⟨_, leaf_scalar fenv force name b dflt al s (by simpa [hasNTy, hasITy] using hty)
+              (by simpa [pathsGood] using hpg)⟩
+        | union alts =>
+          have hg' : alts.all unionAltOk = true := by
+            simp only [InCliGrammar, scalarTyOk, Bool.and_eq_true] at hg
+            exact hg.2
+          exact ⟨_, leaf_union fenv force name alts opt dflt al s hg' (by simpa [hasNTy, hasITy] using hty) hunion⟩
       | list l => simp [hasNTy] at hty
       | tuple l => simp [hasNTy] at hty
     | literal vals =>
@@ -307,31 +258,32 @@ theorem leaf_loop (fenv : FEnv) (force : Bool) (pd : PD) (f : FieldSpec) (v : Va
         cases opt with
         | true => simp [InCliGrammar] at hg
         | false =>
-          exact ⟨_, leaf_literal fenv force name vals dflt al s (by simpa [InCliGrammar] using hg)
-            (by simpa [defaultOk] using hd)
-            (litOk_of vals s (by simpa [hasNTy] using hty) (by simpa [literalSafe] using hs.1.2))⟩
+          have hg' : (vals.mapM literalName).isSome = true := by
+            simp only [InCliGrammar, Bool.and_eq_true] at hg
+            exact hg.2
+          exact ⟨_, leaf_literal fenv force name vals dflt al s hg'
+            (litOk_of vals s (by simpa [hasNTy] using hty) (by simpa [literalSafe] using hlit))⟩
       | list l => simp [hasNTy] at hty
       | tuple l => simp [hasNTy] at hty
     | list i =>
       cases v with
       | list l =>
         simp only [InCliGrammar, Bool.and_eq_true] at hg
-        exact ⟨_, leaf_list fenv force name i opt dflt al l hg.2 hd' (by simpa [itemsSafe] using hs.1.1)⟩
+        exact ⟨_, leaf_list fenv force name i opt dflt al l hg.2 (by simpa [itemsSafe] using hitems)⟩
       | sc s => simp [hasNTy] at hty
       | tuple l => simp [hasNTy] at hty
     | tuple items =>
       cases v with
       | tuple l =>
         simp only [InCliGrammar, Bool.and_eq_true] at hg
-        exact ⟨_, leaf_tuple fenv force name items opt dflt al l hg.2 hd' (by simpa [itemsSafe] using hs.1.1)⟩
+        exact ⟨_, leaf_tuple fenv force name items opt dflt al l hg.2 (by simpa [itemsSafe] using hitems)⟩
       | sc s => simp [hasNTy] at hty
       | list l => simp [hasNTy] at hty
     | vtuple i =>
       cases v with
-      | tuple l => exact ⟨_, leaf_vtuple fenv force name i opt dflt al l hd' (by simpa [itemsSafe] using hs.1.1)⟩
+      | tuple l => exact ⟨_, leaf_vtuple fenv force name i opt dflt al l (by simpa [itemsSafe] using hitems)⟩
       | sc s => simp [hasNTy] at hty
       | list l => simp [hasNTy] at hty
-
 
 /-! ### class trees -/
 
@@ -340,7 +292,7 @@ theorem leaf_loop (fenv : FEnv) (force : Bool) (pd : PD) (f : FieldSpec) (v : Va
 def Conforms : Spec → Inst → Prop
   | .nil, x => x = .nil
   | .leaf f rest, x =>
-    ∃ v xr, x = .leaf f.name v xr ∧ InCliGrammar f.ty = true ∧ defaultOk f = true ∧ HasType f.ty v = true ∧ Conforms rest xr
+    ∃ v xr, x = .leaf f.name v xr ∧ inModel f v = true ∧ HasType f.ty v = true ∧ Conforms rest xr
   | .sub name cls opt _ child rest, x =>
     (∃ xc xr, x = .sub name cls xc xr ∧ Conforms child xc ∧ Conforms rest xr) ∨
     (∃ xr, x = .subNone name xr ∧ opt = true ∧ Conforms rest xr)
@@ -351,35 +303,13 @@ def WF : Spec → Prop
   | .leaf f rest => f.name ∉ rest.names ∧ WF rest
   | .sub name _ _ _ child rest => name ∉ rest.names ∧ WF child ∧ WF rest
 
-/-- an `Optional[Dataclass]` holding None comes back as None when the wrapper has no default instance (finding
-    C15-none-class-is-absent excludes `default_factory` fields) and every leaf default of the class passes through the
-    pipeline unchanged and without error (true for well-typed defaults: `quietNone_of_defaults`) -/
-def quietNone (fenv : FEnv) (child : Spec) (cpd : PD) : Bool :=
-  match parseSpec fenv true child cpd .nil with
-  | .ok (_, true) => true
-  | _ => false
-
-/-- `FileSafe`: the decidable predicate naming what today's code does not reproduce -/
-def fileSafe (fenv : FEnv) : Spec → PD → Inst → Bool
-  | .nil, _, .nil => true
-  | .leaf f rest, pd, .leaf _ v xr => leafSafe pd f v && fileSafe fenv rest pd xr
-  | .sub name _ _ dflt child rest, pd, .sub _ _ xc xr =>
-    (match childPD pd name dflt with
-     | some cpd => fileSafe fenv child cpd xc
-     | none => false) && fileSafe fenv rest pd xr
-  | .sub name _ _ dflt child rest, pd, .subNone _ xr =>
-    (match childPD pd name dflt with
-     | some cpd => cpd.isNone && quietNone fenv child cpd
-     | none => false) && fileSafe fenv rest pd xr
-  | _, _, _ => false
-
 theorem keys_fileOf : ∀ (spec : Spec) (x : Inst), Conforms spec x → (fileOf x).keys = spec.names := by
   intro spec
   induction spec with
   | nil => intro x h; simp only [Conforms] at h; subst h; rfl
   | leaf f rest ih =>
     intro x h
-    obtain ⟨v, xr, rfl, -, -, -, hr⟩ := h
+    obtain ⟨v, xr, rfl, -, -, hr⟩ := h
     simp [fileOf, File.keys, Spec.names, ih xr hr]
   | sub name cls opt dflt child rest _ ihr =>
     intro x h
@@ -417,13 +347,13 @@ theorem parseSpec_loop (fenv : FEnv) : ∀ (spec : Spec) (x : Inst) (force : Boo
     exact ⟨true, rfl⟩
   | leaf f rest ih =>
     intro x force pd F hc hw hs ha
-    obtain ⟨v, xr, rfl, hg, hd, ht, hr⟩ := hc
+    obtain ⟨v, xr, rfl, hm, ht, hr⟩ := hc
     simp only [fileSafe, Bool.and_eq_true] at hs
     simp only [fileOf, Spec.names] at ha
     have hget : F.get f.name = some (.val (encode v)) := by
       have := ha f.name (List.mem_cons_self ..)
       simpa [File.get] using this
-    obtain ⟨eq, hl⟩ := leaf_loop fenv force pd f v hg hd ht hs.1
+    obtain ⟨eq, hl⟩ := leaf_loop fenv force pd f v hm ht hs.1
     obtain ⟨b, hrest⟩ := ih xr force pd F hr hw.2 hs.2 (agree_tail_leaf _ F _ _ _ hw.1 ha)
     exact ⟨eq && b, by simp [parseSpec, hget, hl, hrest, Out.both]⟩
   | sub name cls opt dflt child rest ihc ihr =>
@@ -487,7 +417,7 @@ theorem checkDefaults_ok : ∀ (spec : Spec) (x : Inst) (names : List Str) (F : 
     rfl
   | leaf f rest ih =>
     intro x names F hc hw ha hk
-    obtain ⟨v, xr, rfl, -, -, -, hr⟩ := hc
+    obtain ⟨v, xr, rfl, -, -, hr⟩ := hc
     simp only [fileOf, Spec.names] at ha
     simp only [checkDefaults]
     exact ih xr names F hr hw.2 (agree_tail_leaf _ F _ _ _ hw.1 ha) hk
@@ -536,29 +466,96 @@ def FullStatement : Prop :=
     loop fenv api dest spec x = .ok x
 
 
+
+/-! ### executable forms of the hypotheses (what the driver op `cl.filesafe` evaluates) -/
+
+theorem conforms_of_B : ∀ (spec : Spec) (x : Inst), conformsB spec x = true → Conforms spec x := by
+  intro spec
+  induction spec with
+  | nil => intro x h; cases x <;> simp_all [conformsB, Conforms]
+  | leaf f rest ih =>
+    intro x h
+    cases x with
+    | leaf n v xr =>
+      simp only [conformsB, Bool.and_eq_true, beq_iff_eq] at h
+      obtain ⟨⟨⟨hn, hm⟩, ht⟩, hr⟩ := h
+      subst hn
+      exact ⟨v, xr, rfl, hm, ht, ih xr hr⟩
+    | nil => simp [conformsB] at h
+    | sub n c xc xr => simp [conformsB] at h
+    | subNone n xr => simp [conformsB] at h
+  | sub name cls opt dflt child rest ihc ihr =>
+    intro x h
+    cases x with
+    | sub n c xc xr =>
+      simp only [conformsB, Bool.and_eq_true, beq_iff_eq] at h
+      obtain ⟨⟨⟨hn, hcl⟩, hcc⟩, hr⟩ := h
+      subst hn; subst hcl
+      exact Or.inl ⟨xc, xr, rfl, ihc xc hcc, ihr xr hr⟩
+    | subNone n xr =>
+      simp only [conformsB, Bool.and_eq_true, beq_iff_eq] at h
+      obtain ⟨⟨hn, ho⟩, hr⟩ := h
+      subst hn
+      exact Or.inr ⟨xr, rfl, ho, ihr xr hr⟩
+    | nil => simp [conformsB] at h
+    | leaf n v xr => simp [conformsB] at h
+
+theorem wf_of_B : ∀ (spec : Spec), wfB spec = true → WF spec := by
+  intro spec
+  induction spec with
+  | nil => intro _; trivial
+  | leaf f rest ih =>
+    intro h
+    simp only [wfB, Bool.and_eq_true, Bool.not_eq_true', List.contains_eq_mem, decide_eq_false_iff_not] at h
+    exact ⟨h.1, ih h.2⟩
+  | sub name cls opt dflt child rest ihc ihr =>
+    intro h
+    simp only [wfB, Bool.and_eq_true, Bool.not_eq_true', List.contains_eq_mem, decide_eq_false_iff_not] at h
+    exact ⟨h.1.1, ihc h.1.2, ihr h.2⟩
+
+/-- `c15_loop` with all hypotheses in their executable form: what `cl.filesafe` returns `true` for round-trips -/
+theorem c15_loop_decidable (fenv : FEnv) (api : Api) (dest : Str) (spec : Spec) (x : Inst)
+    (h : (conformsB spec x && wfB spec && fileSafe fenv spec .empty x) = true) :
+    loop fenv api dest spec x = .ok x := by
+  simp only [Bool.and_eq_true] at h
+  exact c15_loop fenv api dest spec x (conforms_of_B spec x h.1.1) (wf_of_B spec h.1.2) h.2
+
 /-! ### when does an `Optional[Dataclass]` holding None come back as None?  (a syntactic sufficient condition) -/
 
-/-- the None-ness guard of `leafWithDefault` -/
-def guardOk (f : FieldSpec) (eff : DefaultV) : Bool :=
-  f.ty.optional || (decide (f.default = .value (.sc .none)) == decide (eff = .value (.sc .none)))
-
-/-- a leaf default that passes through the pipeline unchanged: a well-typed value, or nothing at all -/
-def leafQuiet (f : FieldSpec) (eff : DefaultV) : Bool :=
-  InCliGrammar f.ty && guardOk f eff &&
+/-- a leaf default that passes through the pipeline unchanged: a well-typed value (no shadowed Literal string, no
+    re-parsed Union string), or nothing at all -/
+def leafQuiet (fenv : FEnv) (f : FieldSpec) (eff : DefaultV) : Bool :=
+  InCliGrammar f.ty &&
   match eff with
-  | .value d => HasType f.ty d && literalSafe f.ty d
+  | .value d => HasType f.ty d && literalSafe f.ty d && unionSafe fenv f.ty d
   | .missing => true
 
 /-- a well-typed scalar default (not encoded: the Enum member, the Path object) comes out as it went in -/
 theorem default_scalar (fenv : FEnv) (force : Bool) (name : Str) (b : BTy) (opt : Bool) (dflt : DefaultV) (al : List Str)
-    (s : Scalar) (hgd : guardOk ⟨name, ⟨.sc (.base b), opt⟩, dflt, al⟩ (.value (.sc s)) = true) (ht : hasBTy b s = true) :
+    (s : Scalar) (ht : hasBTy b s = true) :
     leafWithDefault fenv force ⟨name, ⟨.sc (.base b), opt⟩, dflt, al⟩ (.value (.sc s)) = .ok (.sc s, true) := by
-  cases opt <;> cases b <;> cases s <;> simp [hasBTy] at ht <;>
-    simp_all [guardOk, leafWithDefault, argOptions, defaultVal, emptyArgvValue, postprocessC, postprocess, bconvOf,
+  by_cases hd : dflt = .value (.sc .none) <;> cases opt <;> cases b <;> cases s <;> simp [hasBTy] at ht <;>
+    simp_all [leafWithDefault, argOptionsEff, argOptions, defaultVal, emptyArgvValue, postprocessC, postprocess, bconvOf,
       convOfItem, Conv.apply, BConv.apply]
 
+theorem default_union (fenv : FEnv) (force : Bool) (name : Str) (alts : List BTy) (opt : Bool) (dflt : DefaultV) (al : List Str)
+    (s : Scalar) (ha : alts.all unionAltOk = true) (ht : alts.any (fun b => hasBTy b s) = true)
+    (hs : unionSafe fenv ⟨.sc (.union alts), opt⟩ (.sc s) = true) :
+    leafWithDefault fenv force ⟨name, ⟨.sc (.union alts), opt⟩, dflt, al⟩ (.value (.sc s)) = .ok (.sc s, true) := by
+  rcases union_value_kind alts s ha ht with ⟨i, rfl⟩ | ⟨r, rfl⟩ | ⟨t, rfl⟩ | ⟨b, rfl⟩
+  · by_cases hd : dflt = .value (.sc .none) <;> cases opt <;>
+      simp_all [leafWithDefault, argOptionsEff, argOptions, defaultVal, emptyArgvValue, postprocessC, postprocess, convOfItem]
+  · by_cases hd : dflt = .value (.sc .none) <;> cases opt <;>
+      simp_all [leafWithDefault, argOptionsEff, argOptions, defaultVal, emptyArgvValue, postprocessC, postprocess, convOfItem]
+  · have hu : unionApply fenv (alts.map bconvOf) t = .ok (.str t) := by simpa [unionSafe] using hs
+    by_cases hd : dflt = .value (.sc .none) <;> cases opt <;>
+      simp_all [leafWithDefault, argOptionsEff, argOptions, defaultVal, emptyArgvValue, postprocessC, postprocess, convOfItem,
+        Conv.apply]
+  · by_cases hd : dflt = .value (.sc .none) <;> cases opt <;>
+      simp_all [leafWithDefault, argOptionsEff, argOptions, defaultVal, emptyArgvValue, postprocessC, postprocess, convOfItem]
+
 theorem default_container (fenv : FEnv) (force : Bool) (name : Str) (inner : NTy) (opt : Bool) (dflt : DefaultV) (al : List Str)
-    (d : Val) (hg : InCliGrammar ⟨inner, opt⟩ = true) (hgd : guardOk ⟨name, ⟨inner, opt⟩, dflt, al⟩ (.value d) = true)
+    (d : Val) (hg : InCliGrammar ⟨inner, opt⟩ = true)
     (hi : ∀ i, inner ≠ .sc i) (hl : ∀ vs, inner ≠ .literal vs) (ht : hasNTy inner d = true) :
     leafWithDefault fenv force ⟨name, ⟨inner, opt⟩, dflt, al⟩ (.value d) = .ok (d, true) := by
   cases inner with
@@ -568,71 +565,78 @@ theorem default_container (fenv : FEnv) (force : Bool) (name : Str) (inner : NTy
     simp only [InCliGrammar, Bool.and_eq_true] at hg
     obtain ⟨c, hc'⟩ := Option.isSome_iff_exists.mp hg.2
     cases d <;> simp [hasNTy] at ht
-    cases opt <;>
-      simp_all [guardOk, leafWithDefault, argOptions, defaultVal, emptyArgvValue, postprocessC, postprocess, tupleToList]
+    by_cases hd : dflt = .value (.sc .none) <;> cases opt <;>
+      simp_all [leafWithDefault, argOptionsEff, argOptions, defaultVal, emptyArgvValue, postprocessC, postprocess, tupleToList]
   | tuple items =>
     simp only [InCliGrammar, Bool.and_eq_true] at hg
     obtain ⟨c, hc'⟩ := Option.isSome_iff_exists.mp hg.2
     cases d <;> simp [hasNTy] at ht
-    cases opt <;>
-      simp_all [guardOk, leafWithDefault, argOptions, defaultVal, emptyArgvValue, postprocessC, postprocess, listToTuple]
+    by_cases hd : dflt = .value (.sc .none) <;> cases opt <;>
+      simp_all [leafWithDefault, argOptionsEff, argOptions, defaultVal, emptyArgvValue, postprocessC, postprocess, listToTuple]
   | vtuple i =>
     cases d <;> simp [hasNTy] at ht
-    cases opt <;>
-      simp_all [guardOk, leafWithDefault, argOptions, defaultVal, emptyArgvValue, postprocessC, postprocess, listToTuple]
+    by_cases hd : dflt = .value (.sc .none) <;> cases opt <;>
+      simp_all [leafWithDefault, argOptionsEff, argOptions, defaultVal, emptyArgvValue, postprocessC, postprocess, listToTuple]
 
 theorem default_literal (fenv : FEnv) (force : Bool) (name : Str) (vals : List Scalar) (dflt : DefaultV) (al : List Str)
-    (s : Scalar) (hn : (vals.mapM literalName).isSome = true)
-    (hgd : guardOk ⟨name, ⟨.literal vals, false⟩, dflt, al⟩ (.value (.sc s)) = true) (ht : litOk vals s = true) :
+    (s : Scalar) (hn : (vals.mapM literalName).isSome = true) (ht : litOk vals s = true) :
     leafWithDefault fenv force ⟨name, ⟨.literal vals, false⟩, dflt, al⟩ (.value (.sc s)) = .ok (.sc s, true) := by
   obtain ⟨names, hn'⟩ := Option.isSome_iff_exists.mp hn
-  cases s <;> simp [litOk] at ht <;>
-    simp_all [guardOk, leafWithDefault, argOptions, defaultVal, emptyArgvValue, postprocessC, postprocess,
+  by_cases hd : dflt = .value (.sc .none) <;> cases s <;> simp [litOk] at ht <;>
+    simp_all [leafWithDefault, argOptionsEff, argOptions, defaultVal, emptyArgvValue, postprocessC, postprocess,
       Conv.apply, BConv.apply]
 
 /-- no default at all, `required` forced off: None goes through every annotation untouched (for Tuples since the
     repair of `tuple(None)`) -/
 theorem default_missing (fenv : FEnv) (name : Str) (inner : NTy) (dflt : DefaultV) (al : List Str)
-    (hg : InCliGrammar ⟨inner, false⟩ = true) (hgd : guardOk ⟨name, ⟨inner, false⟩, dflt, al⟩ .missing = true) :
+    (hg : InCliGrammar ⟨inner, false⟩ = true) :
     leafWithDefault fenv true ⟨name, ⟨inner, false⟩, dflt, al⟩ .missing = .ok (.sc .none, true) := by
   cases inner with
   | tuple items =>
     simp only [InCliGrammar, Bool.and_eq_true] at hg
     obtain ⟨c, hc'⟩ := Option.isSome_iff_exists.mp hg.2
-    simp_all [guardOk, leafWithDefault, argOptions, defaultVal, emptyArgvValue, postprocessC, tupleOfScalar]
+    by_cases hd : dflt = .value (.sc .none) <;>
+      simp_all [leafWithDefault, argOptionsEff, argOptions, defaultVal, emptyArgvValue, postprocessC, postprocess, tupleOfScalar,
+        listToTuple]
   | vtuple i =>
-    simp_all [guardOk, leafWithDefault, argOptions, defaultVal, emptyArgvValue, postprocessC, tupleOfScalar]
+    by_cases hd : dflt = .value (.sc .none) <;>
+      simp_all [leafWithDefault, argOptionsEff, argOptions, defaultVal, emptyArgvValue, postprocessC, postprocess, tupleOfScalar,
+        listToTuple]
   | sc i =>
     cases i with
-    | union a => simp [InCliGrammar, itemOk] at hg
+    | union a =>
+      by_cases hd : dflt = .value (.sc .none) <;>
+        simp_all [leafWithDefault, argOptionsEff, argOptions, defaultVal, emptyArgvValue, postprocessC, postprocess]
     | base b =>
-      cases b <;>
-        simp_all [guardOk, leafWithDefault, argOptions, defaultVal, emptyArgvValue, postprocessC, postprocess, bconvOf,
-          InCliGrammar, itemOk]
+      by_cases hd : dflt = .value (.sc .none) <;> cases b <;>
+        simp_all [leafWithDefault, argOptionsEff, argOptions, defaultVal, emptyArgvValue, postprocessC, postprocess, bconvOf,
+          InCliGrammar, scalarTyOk]
   | literal vals =>
-    simp only [InCliGrammar, Bool.not_false, Bool.true_and] at hg
-    obtain ⟨names, hn'⟩ := Option.isSome_iff_exists.mp hg
-    simp_all [guardOk, leafWithDefault, argOptions, defaultVal, emptyArgvValue, postprocessC, postprocess]
+    simp only [InCliGrammar, Bool.not_false, Bool.true_and, Bool.and_eq_true] at hg
+    obtain ⟨names, hn'⟩ := Option.isSome_iff_exists.mp hg.2
+    by_cases hd : dflt = .value (.sc .none) <;>
+      simp_all [leafWithDefault, argOptionsEff, argOptions, defaultVal, emptyArgvValue, postprocessC, postprocess]
   | list i =>
     simp only [InCliGrammar, Bool.and_eq_true] at hg
     obtain ⟨c, hc'⟩ := Option.isSome_iff_exists.mp hg.2
-    simp_all [guardOk, leafWithDefault, argOptions, defaultVal, emptyArgvValue, postprocessC, postprocess, tupleToList]
+    by_cases hd : dflt = .value (.sc .none) <;>
+      simp_all [leafWithDefault, argOptionsEff, argOptions, defaultVal, emptyArgvValue, postprocessC, postprocess, tupleToList]
 
 /-- a quiet leaf default reaches the constructor unchanged, and the argument equals the default -/
-theorem leafQuiet_ok (fenv : FEnv) (f : FieldSpec) (eff : DefaultV) (h : leafQuiet f eff = true) :
+theorem leafQuiet_ok (fenv : FEnv) (f : FieldSpec) (eff : DefaultV) (h : leafQuiet fenv f eff = true) :
     leafWithDefault fenv true f eff = .ok (defaultVal eff, true) := by
   obtain ⟨name, ⟨inner, opt⟩, dflt, al⟩ := f
   simp only [leafQuiet, Bool.and_eq_true] at h
-  obtain ⟨⟨hg, hgd⟩, hrest⟩ := h
+  obtain ⟨hg, hrest⟩ := h
   cases eff with
   | missing =>
     cases opt with
     | true => exact leaf_opt_none fenv true name inner dflt al .missing hg (Or.inl rfl)
-    | false => exact default_missing fenv name inner dflt al hg hgd
+    | false => exact default_missing fenv name inner dflt al hg
   | value d =>
     simp only [defaultVal]
     simp only [Bool.and_eq_true] at hrest
-    obtain ⟨hrest, hlit⟩ := hrest
+    obtain ⟨⟨hrest, hlit⟩, hunion⟩ := hrest
     by_cases hv : d = .sc .none
     · subst hv
       have hopt : opt = true := by
@@ -653,8 +657,12 @@ theorem leafQuiet_ok (fenv : FEnv) (f : FieldSpec) (eff : DefaultV) (h : leafQui
         cases d with
         | sc s =>
           cases i with
-          | base b => exact default_scalar fenv true name b opt dflt al s hgd (by simpa [hasNTy, hasITy] using hty)
-          | union a => simp [hasNTy, hasITy] at hty
+          | base b => exact default_scalar fenv true name b opt dflt al s (by simpa [hasNTy, hasITy] using hty)
+          | union alts =>
+            have hg' : alts.all unionAltOk = true := by
+              simp only [InCliGrammar, scalarTyOk, Bool.and_eq_true] at hg
+              exact hg.2
+            exact default_union fenv true name alts opt dflt al s hg' (by simpa [hasNTy, hasITy] using hty) hunion
         | list l => simp [hasNTy] at hty
         | tuple l => simp [hasNTy] at hty
       | literal vals =>
@@ -663,27 +671,30 @@ theorem leafQuiet_ok (fenv : FEnv) (f : FieldSpec) (eff : DefaultV) (h : leafQui
           cases opt with
           | true => simp [InCliGrammar] at hg
           | false =>
-            exact default_literal fenv true name vals dflt al s (by simpa [InCliGrammar] using hg) hgd
+            have hg' : (vals.mapM literalName).isSome = true := by
+              simp only [InCliGrammar, Bool.and_eq_true] at hg
+              exact hg.2
+            exact default_literal fenv true name vals dflt al s hg'
               (litOk_of vals s (by simpa [hasNTy] using hty) (by simpa [literalSafe] using hlit))
         | list l => simp [hasNTy] at hty
         | tuple l => simp [hasNTy] at hty
-      | list i => exact default_container fenv true name _ opt dflt al d hg hgd (by simp) (by simp) hty
-      | tuple items => exact default_container fenv true name _ opt dflt al d hg hgd (by simp) (by simp) hty
-      | vtuple i => exact default_container fenv true name _ opt dflt al d hg hgd (by simp) (by simp) hty
+      | list i => exact default_container fenv true name _ opt dflt al d hg (by simp) (by simp) hty
+      | tuple items => exact default_container fenv true name _ opt dflt al d hg (by simp) (by simp) hty
+      | vtuple i => exact default_container fenv true name _ opt dflt al d hg (by simp) (by simp) hty
 
 /-- every leaf default below this wrapper is quiet (with the wrappers' `defaults` threaded as the code does) -/
-def defaultsQuiet : Spec → PD → Bool
+def defaultsQuiet (fenv : FEnv) : Spec → PD → Bool
   | .nil, _ => true
   | .leaf f rest, pd =>
     (match cascade pd f none with
-     | some eff => leafQuiet f eff
-     | none => false) && defaultsQuiet rest pd
+     | some eff => leafQuiet fenv f eff
+     | none => false) && defaultsQuiet fenv rest pd
   | .sub name _ _ dflt child rest, pd =>
     (match childPD pd name dflt with
-     | some cpd => defaultsQuiet child cpd
-     | none => false) && defaultsQuiet rest pd
+     | some cpd => defaultsQuiet fenv child cpd
+     | none => false) && defaultsQuiet fenv rest pd
 
-theorem parseSpec_quiet (fenv : FEnv) : ∀ (spec : Spec) (pd : PD), defaultsQuiet spec pd = true →
+theorem parseSpec_quiet (fenv : FEnv) : ∀ (spec : Spec) (pd : PD), defaultsQuiet fenv spec pd = true →
     ∃ i, parseSpec fenv true spec pd .nil = .ok (i, true) := by
   intro spec
   induction spec with
@@ -715,10 +726,74 @@ theorem parseSpec_quiet (fenv : FEnv) : ∀ (spec : Spec) (pd : PD), defaultsQui
       | false => exact ⟨Inst.sub name cls ic i, by simp [parseSpec, File.get, hp, hic, hi, Out.both, Out.map, Out.demote]⟩
 
 /-- the third exclusion holds whenever the class's defaults are well-typed and no non-Optional Tuple lacks one -/
-theorem quietNone_of_defaults (fenv : FEnv) (child : Spec) (cpd : PD) (h : defaultsQuiet child cpd = true) :
+theorem quietNone_of_defaults (fenv : FEnv) (child : Spec) (cpd : PD) (h : defaultsQuiet fenv child cpd = true) :
     quietNone fenv child cpd = true := by
   obtain ⟨i, hi⟩ := parseSpec_quiet fenv child cpd h
   simp [quietNone, hi]
+
+/-- `fileSafe` with the None-class clause in its *syntactic* form: no default instance for the member, and every leaf
+    default below it well-typed (`defaultsQuiet`) — no reference to the model's own `parseSpec` -/
+def fileSafeSyn (fenv : FEnv) : Spec → PD → Inst → Bool
+  | .nil, _, .nil => true
+  | .leaf f rest, pd, .leaf _ v xr => leafSafe fenv pd f v && fileSafeSyn fenv rest pd xr
+  | .sub name _ _ dflt child rest, pd, .sub _ _ xc xr =>
+    (match childPD pd name dflt with
+     | some cpd => fileSafeSyn fenv child cpd xc
+     | none => false) && fileSafeSyn fenv rest pd xr
+  | .sub name _ _ dflt child rest, pd, .subNone _ xr =>
+    (match childPD pd name dflt with
+     | some cpd => cpd.isNone && defaultsQuiet fenv child cpd
+     | none => false) && fileSafeSyn fenv rest pd xr
+  | _, _, _ => false
+
+theorem fileSafe_of_syn (fenv : FEnv) : ∀ (spec : Spec) (pd : PD) (x : Inst),
+    fileSafeSyn fenv spec pd x = true → fileSafe fenv spec pd x = true := by
+  intro spec
+  induction spec with
+  | nil => intro pd x h; cases x <;> simp_all [fileSafeSyn, fileSafe]
+  | leaf f rest ih =>
+    intro pd x h
+    cases x with
+    | leaf n v xr =>
+      simp only [fileSafeSyn, Bool.and_eq_true] at h
+      simp only [fileSafe, Bool.and_eq_true]
+      exact ⟨h.1, ih pd xr h.2⟩
+    | nil => simp [fileSafeSyn] at h
+    | sub n c xc xr => simp [fileSafeSyn] at h
+    | subNone n xr => simp [fileSafeSyn] at h
+  | sub name cls opt dflt child rest ihc ihr =>
+    intro pd x h
+    cases x with
+    | sub n c xc xr =>
+      simp only [fileSafeSyn, Bool.and_eq_true] at h
+      simp only [fileSafe, Bool.and_eq_true]
+      refine ⟨?_, ihr pd xr h.2⟩
+      cases hp : childPD pd name dflt with
+      | none => simp [hp] at h
+      | some cpd =>
+        have h1 := h.1
+        rw [hp] at h1
+        exact ihc cpd xc h1
+    | subNone n xr =>
+      simp only [fileSafeSyn, Bool.and_eq_true] at h
+      simp only [fileSafe, Bool.and_eq_true]
+      refine ⟨?_, ihr pd xr h.2⟩
+      cases hp : childPD pd name dflt with
+      | none => simp [hp] at h
+      | some cpd =>
+        have h1 := h.1
+        rw [hp] at h1
+        simp only [Bool.and_eq_true] at h1
+        simp only [Bool.and_eq_true]
+        exact ⟨h1.1, quietNone_of_defaults fenv child cpd h1.2⟩
+    | nil => simp [fileSafeSyn] at h
+    | leaf n v xr => simp [fileSafeSyn] at h
+
+/-- **C15, purely syntactic exclusion**: the same conclusion as `c15_loop` from `fileSafeSyn` -/
+theorem c15_loop_syntactic (fenv : FEnv) (api : Api) (dest : Str) (spec : Spec) (x : Inst)
+    (hc : Conforms spec x) (hw : WF spec) (hs : fileSafeSyn fenv spec .empty x = true) :
+    loop fenv api dest spec x = .ok x :=
+  c15_loop fenv api dest spec x hc hw (fileSafe_of_syn fenv spec .empty x hs)
 
 /-! ### the per-action shortcut agrees with the argparse engine model on an empty command line -/
 
@@ -789,7 +864,7 @@ theorem emptyArgv_engine_required (fenv : FEnv) (ao : ArgOpts) (opts : List Str)
     SpVerif.run fenv [actOf ao opts dest] [0] [] = .exit 2 .required := by
   simp [SpVerif.run, actOf, lexAll, consume, initNs, finish, List.zipIdx, hr]
 
-/-! ### the three open findings: the model reproduces them, so the full statement is false -/
+/-! ### the open findings: the model reproduces them, so the full statement is false -/
 
 def colorTy : BTy := .enum "Color".toList ["RED".toList, "GREEN".toList, "BLUE".toList]
 
@@ -818,23 +893,9 @@ def specLit : Spec :=
   .leaf ⟨"k".toList, ⟨.literal [.str "0".toList, .int 0], false⟩, .missing, []⟩ .nil
 def xLit : Inst := .leaf "k".toList (.sc (.str "0".toList)) .nil
 
-/-- C15-literal-name-collision: the saved `"0"` comes back as the int `0` (the later value with the same `str()`) -/
-theorem c15_literal_witness (api : Api) :
-    loop [] api "config".toList specLit xLit = .ok (.leaf "k".toList (.sc (.int 0)) .nil) := by
-  cases api <;> rfl
-
-theorem conforms_lit : Conforms specLit xLit := ⟨_, _, rfl, rfl, rfl, rfl, rfl⟩
-
-theorem c15_full_witness_literal : ¬ FullStatement := by
-  intro h
-  have := h [] .parse "config".toList specLit xLit conforms_lit ⟨by simp [Spec.names], trivial⟩
-  rw [c15_literal_witness] at this
-  simp [xLit] at this
-
-/-- the exclusion is exactly the shadowed str value: the int `0` of the same Literal, and `"0"` when it comes last, are safe -/
-example : fileSafe [] specLit .empty xLit = false := by rfl
-example : fileSafe [] specLit .empty (.leaf "k".toList (.sc (.int 0)) .nil) = true := by rfl
-example : fileSafe [] (.leaf ⟨"k".toList, ⟨.literal [.int 0, .str "0".toList], false⟩, .missing, []⟩ .nil) .empty xLit = true := by rfl
+/-- `u: Union[int, str] = 1` holding `"3"` -/
+def specUnion : Spec := .leaf ⟨"u".toList, ⟨.sc (.union [.int, .str]), false⟩, .value (.sc (.int 1)), []⟩ .nil
+def xUnion : Inst := .leaf "u".toList (.sc (.str "3".toList)) .nil
 
 /-- C15-D17a: the enum item comes back as the string `"GREEN"` -/
 theorem c15_items_witness (api : Api) :
@@ -852,53 +913,98 @@ theorem c15_class_none_witness (api : Api) :
       = .ok (.sub "sub".toList "K1".toList (.leaf "k".toList (.sc (.int 0)) .nil) .nil) := by
   cases api <;> rfl
 
+/-- C15-literal-name-collision: the saved `"0"` comes back as the int `0` (the later value with the same `str()`) -/
+theorem c15_literal_witness (api : Api) :
+    loop [] api "config".toList specLit xLit = .ok (.leaf "k".toList (.sc (.int 0)) .nil) := by
+  cases api <;> rfl
+
+/-- C15-union-str-reparsed: the saved `"3"` is a string default, parsed again by `type=` (int first): it comes back `3` -/
+theorem c15_union_witness (api : Api) :
+    loop [] api "config".toList specUnion xUnion = .ok (.leaf "u".toList (.sc (.int 3)) .nil) := by
+  cases api <;> rfl
+
 /-- the former finding (a Tuple field without default inside a None class) now round-trips -/
 theorem c15_tuple_none_fixed (api : Api) : loop [] api "config".toList specTupleNone xTupleNone = .ok xTupleNone := by
   cases api <;> rfl
 
-theorem conforms_items : Conforms specItems xItems := ⟨_, _, rfl, rfl, rfl, rfl, rfl⟩
-theorem conforms_none : Conforms specNone xNone := ⟨_, _, rfl, rfl, rfl, rfl, rfl⟩
-theorem conforms_classNone : Conforms specClassNone xClassNone := Or.inr ⟨_, rfl, rfl, rfl⟩
+theorem conforms_items : Conforms specItems xItems := conforms_of_B _ _ (by rfl)
+theorem conforms_none : Conforms specNone xNone := conforms_of_B _ _ (by rfl)
+theorem conforms_classNone : Conforms specClassNone xClassNone := conforms_of_B _ _ (by rfl)
+theorem conforms_lit : Conforms specLit xLit := conforms_of_B _ _ (by rfl)
+theorem conforms_union : Conforms specUnion xUnion := conforms_of_B _ _ (by rfl)
 
 theorem c15_full_witness_items : ¬ FullStatement := by
   intro h
-  have := h [] .parse "config".toList specItems xItems conforms_items ⟨by simp [Spec.names], trivial⟩
+  have := h [] .parse "config".toList specItems xItems conforms_items (wf_of_B _ (by rfl))
   rw [c15_items_witness] at this
   simp [xItems] at this
 
 theorem c15_full_witness_none : ¬ FullStatement := by
   intro h
-  have := h [] .parse "config".toList specNone xNone conforms_none ⟨by simp [Spec.names], trivial⟩
+  have := h [] .parse "config".toList specNone xNone conforms_none (wf_of_B _ (by rfl))
   rw [c15_none_witness] at this
   simp [xNone] at this
 
 theorem c15_full_witness_class_none : ¬ FullStatement := by
   intro h
-  have := h [] .parser "config".toList specClassNone xClassNone conforms_classNone
-    ⟨by simp [Spec.names], ⟨by simp [Spec.names], trivial⟩, trivial⟩
+  have := h [] .parser "config".toList specClassNone xClassNone conforms_classNone (wf_of_B _ (by rfl))
   rw [c15_class_none_witness] at this
   simp [xClassNone] at this
 
-/-- the exclusion is the right one: `fileSafe` rejects exactly these three inputs' leaves -/
+theorem c15_full_witness_literal : ¬ FullStatement := by
+  intro h
+  have := h [] .parse "config".toList specLit xLit conforms_lit (wf_of_B _ (by rfl))
+  rw [c15_literal_witness] at this
+  simp [xLit] at this
+
+theorem c15_full_witness_union : ¬ FullStatement := by
+  intro h
+  have := h [] .parse "config".toList specUnion xUnion conforms_union (wf_of_B _ (by rfl))
+  rw [c15_union_witness] at this
+  simp [xUnion] at this
+
+/-- the exclusion is the right one: `fileSafe` rejects these inputs … -/
 example : fileSafe [] specItems .empty xItems = false := by rfl
 example : fileSafe [] specNone .empty xNone = false := by rfl
 example : fileSafe [] specClassNone .empty xClassNone = false := by rfl
+example : fileSafe [] specLit .empty xLit = false := by rfl
+example : fileSafe [] specUnion .empty xUnion = false := by rfl
+/-- … and exactly these: the repaired Tuple case, the int `0` of the same Literal, `"0"` when it comes last in the Literal,
+    an int or a non-numeric str in the same Union are all safe -/
 example : fileSafe [] specTupleNone .empty xTupleNone = true := by rfl
+example : fileSafe [] specLit .empty (.leaf "k".toList (.sc (.int 0)) .nil) = true := by rfl
+example : fileSafe [] (.leaf ⟨"k".toList, ⟨.literal [.int 0, .str "0".toList], false⟩, .missing, []⟩ .nil) .empty xLit = true := by rfl
+example : fileSafe [] specUnion .empty (.leaf "u".toList (.sc (.int 3)) .nil) = true := by rfl
+example : fileSafe [] specUnion .empty (.leaf "u".toList (.sc (.str "x3".toList)) .nil) = true := by rfl
+
+/-! ### `inModel`: what is outside the *model* (one example per clause; none of these is a claim about the code) -/
+
+example : inModel ⟨"a".toList, ⟨.sc (.base .any), false⟩, .missing, []⟩ (.sc (.str "x".toList)) = false := by rfl          -- Any
+example : inModel ⟨"l".toList, ⟨.list (.union [.int, .str]), false⟩, .missing, []⟩ (.list []) = false := by rfl            -- List[Union]
+example : inModel ⟨"u".toList, ⟨.sc (.union [.int, .path]), false⟩, .missing, []⟩ (.sc (.int 1)) = false := by rfl         -- Union with Path
+example : inModel ⟨"o".toList, ⟨.literal [.int 1], true⟩, .missing, []⟩ (.sc (.int 1)) = false := by rfl                  -- Optional[Literal]
+example : inModel ⟨"m".toList, ⟨.literal [.enum "Color".toList "RED".toList], false⟩, .missing, []⟩
+    (.sc (.enum "Color".toList "RED".toList)) = false := by rfl                                                           -- Enum-valued Literal
+example : inModel ⟨"p".toList, ⟨.sc (.base .path), false⟩, .missing, []⟩ (.sc (.path "a//b".toList)) = false := by rfl      -- path to normalise
+/-- a non-Optional annotation with a `None` default (`a: int = None`) IS in the model and round-trips -/
+example : loop [] .parse "config".toList (.leaf ⟨"a".toList, ⟨.sc (.base .int), false⟩, .value (.sc .none), []⟩ .nil)
+    (.leaf "a".toList (.sc (.int 5)) .nil) = .ok (.leaf "a".toList (.sc (.int 5)) .nil) :=
+  c15_loop_decidable [] .parse _ _ _ (by rfl)
 
 /-! ### both front ends see the same defaults -/
 
 /-- the root-less file given to `parse()` and the dest-keyed file given to `ArgumentParser` are the same defaults, for
-    *every* file (also malformed ones) -/
-theorem c15_layouts_agree (fenv : FEnv) (dest : Str) (spec : Spec) (f : File) :
+    *every* file (a restatement of the two layout definitions, kept as a simp lemma) -/
+@[simp] theorem c15_layouts_agree (fenv : FEnv) (dest : Str) (spec : Spec) (f : File) :
     ConfigLoop.run fenv .parse dest spec (layoutFile .parse dest f) = ConfigLoop.run fenv .parser dest spec (layoutFile .parser dest f) := by
   simp [ConfigLoop.run, layoutFile]
 
-/-! ### non-vacuity: a nested class tree with an enum, a path, tuples, Optionals and an Optional class -/
+/-! ### non-vacuity: a nested class tree with an enum, a path, tuples, a Union, Optionals and an Optional class -/
 
 /-- ```
     class Inner:  e: Color = RED ; p: Optional[Path] = None ; t: Tuple[int, str] = (1, "a")
     class Outer:  n: int ; name: str = "x" ; l: List[float] = [] ; inner: Inner = Inner() ; maybe: Optional[Inner] = None
-                  other: Optional[Inner] = None ; o: Optional[int] = None
+                  other: Optional[Inner] = None ; o: Optional[int] = None ; u: Union[int, str] = 0 ; a: int = None
     ``` -/
 def exInner : Spec :=
   .leaf ⟨"e".toList, ⟨.sc (.base colorTy), false⟩, .value (.sc (.enum "Color".toList "RED".toList)), []⟩ <|
@@ -916,7 +1022,9 @@ def exOuter : Spec :=
   .sub "inner".toList "Inner".toList false (.inst exInnerDefault) exInner <|
   .sub "maybe".toList "Inner".toList true .none exInner <|
   .sub "other".toList "Inner".toList true .none exInner <|
-  .leaf ⟨"o".toList, ⟨.sc (.base .int), true⟩, .value (.sc .none), []⟩ .nil
+  .leaf ⟨"o".toList, ⟨.sc (.base .int), true⟩, .value (.sc .none), []⟩ <|
+  .leaf ⟨"u".toList, ⟨.sc (.union [.int, .str]), false⟩, .value (.sc (.int 0)), []⟩ <|
+  .leaf ⟨"a".toList, ⟨.sc (.base .int), false⟩, .value (.sc .none), []⟩ .nil
 
 def exX : Inst :=
   .leaf "n".toList (.sc (.int (-5))) <|
@@ -929,56 +1037,44 @@ def exX : Inst :=
     (.leaf "e".toList (.sc (.enum "Color".toList "RED".toList)) <| .leaf "p".toList (.sc .none) <|
      .leaf "t".toList (.tuple [.int 1, .str "a".toList]) .nil) <|
   .subNone "other".toList <|
-  .leaf "o".toList (.sc .none) .nil
+  .leaf "o".toList (.sc .none) <|
+  .leaf "u".toList (.sc (.str "three".toList)) <|
+  .leaf "a".toList (.sc (.int 7)) .nil
 
-theorem exInner_conforms_1 : Conforms exInner
-    (.leaf "e".toList (.sc (.enum "Color".toList "BLUE".toList)) <| .leaf "p".toList (.sc (.path "a/b".toList)) <|
-     .leaf "t".toList (.tuple [.int 0, .str "".toList]) .nil) :=
-  ⟨_, _, rfl, rfl, rfl, rfl, _, _, rfl, rfl, rfl, rfl, _, _, rfl, rfl, rfl, rfl, rfl⟩
+theorem exOuter_conforms : Conforms exOuter exX := conforms_of_B _ _ (by rfl)
+theorem exOuter_wf : WF exOuter := wf_of_B _ (by rfl)
 
-theorem exInner_conforms_2 : Conforms exInner exInnerDefault :=
-  ⟨_, _, rfl, rfl, rfl, rfl, _, _, rfl, rfl, rfl, rfl, _, _, rfl, rfl, rfl, rfl, rfl⟩
-
-theorem exInner_wf : WF exInner := by simp [exInner, WF, Spec.names]
-
-theorem exOuter_conforms : Conforms exOuter exX :=
-  ⟨_, _, rfl, rfl, rfl, rfl, _, _, rfl, rfl, rfl, rfl, _, _, rfl, rfl, rfl, rfl,
-    Or.inl ⟨_, _, rfl, exInner_conforms_1,
-      Or.inl ⟨_, _, rfl, exInner_conforms_2,
-        Or.inr ⟨_, rfl, rfl, _, _, rfl, rfl, rfl, rfl, rfl⟩⟩⟩⟩
-
-theorem exOuter_wf : WF exOuter := by
-  simp [exOuter, WF, Spec.names, exInner_wf]
-
-/-- the hypotheses of `c15_loop` hold for this input (so the theorem is not vacuous), and its conclusion is the concrete
-    equation one can also compute -/
+/-- the hypotheses of `c15_loop` (and of its syntactic and decidable forms) hold for this input, so the theorems are not
+    vacuous; the conclusion is the concrete equation one can also compute -/
 example : loop [] .parse "config".toList exOuter exX = .ok exX :=
   c15_loop [] .parse _ exOuter exX exOuter_conforms exOuter_wf (by rfl)
 example : loop [] .parser "cfg".toList exOuter exX = .ok exX :=
-  c15_loop [] .parser _ exOuter exX exOuter_conforms exOuter_wf (by rfl)
-example : ∃ v, leafWithDefault [] false ⟨"e".toList, ⟨.sc (.base colorTy), false⟩, .missing, []⟩
-    (.value (encode (.sc (.enum "Color".toList "GREEN".toList)))) = .ok (v, false) ∧ v = .sc (.enum "Color".toList "GREEN".toList) :=
-  ⟨_, leaf_scalar [] false _ colorTy .missing [] _ (by simp) (by rfl), rfl⟩
+  c15_loop_syntactic [] .parser _ exOuter exX exOuter_conforms exOuter_wf (by rfl)
+example : loop [] .parser "cfg".toList exOuter exX = .ok exX := c15_loop_decidable [] .parser _ exOuter exX (by rfl)
+example : fileSafe [] exOuter .empty exX = true := fileSafe_of_syn [] exOuter .empty exX (by rfl)
 
-
-example : defaultsQuiet exInner .none = true := by rfl
+example : defaultsQuiet [] exInner .none = true := by rfl
 example : quietNone [] exInner .none = true := quietNone_of_defaults [] exInner .none (by rfl)
-example : defaultsQuiet (.leaf ⟨"w".toList, ⟨.vtuple (.base .bool), false⟩, .missing, []⟩ .nil) .none = true := by rfl
-
+example : defaultsQuiet [] (.leaf ⟨"w".toList, ⟨.vtuple (.base .bool), false⟩, .missing, []⟩ .nil) .none = true := by rfl
 
 /-! non-vacuity of the per-constructor lemmas and of the auxiliary theorems: each hypothesis list is satisfied by a
     concrete, non-trivial input -/
-example := leaf_opt_scalar [] false "p".toList .path (.value (.sc .none)) [] (.path "a/b".toList) (by rfl)
-example := leaf_opt_scalar [] false "e".toList colorTy .missing [] (.enum "Color".toList "BLUE".toList) (by rfl)
-example := leaf_list [] false "l".toList (.base .int) false .missing [] [.int 1, .int (-2)] (by rfl) (Or.inr (by simp)) (by rfl)
+example := leaf_scalar [] false "e".toList colorTy (.value (.sc .none)) [] (.enum "Color".toList "GREEN".toList) (by rfl) (by rfl)
+example := leaf_scalar [] false "p".toList .path .missing [] (.path "a/b".toList) (by rfl) (by rfl)
+example := leaf_opt_scalar [] false "p".toList .path (.value (.sc .none)) [] (.path "a/b".toList) (by rfl) (by rfl)
+example := leaf_opt_scalar [] false "e".toList colorTy .missing [] (.enum "Color".toList "BLUE".toList) (by rfl) (by rfl)
+example := leaf_union [] false "u".toList [.int, .str] false .missing [] (.str "x".toList) (by rfl) (by rfl) (by rfl)
+example := leaf_union [("1.5".toList, some "1.5".toList)] false "u".toList [.str, .float] true .missing [] (.str "1.5".toList)
+  (by rfl) (by rfl) (by rfl)
+example := leaf_list [] false "l".toList (.base .int) false .missing [] [.int 1, .int (-2)] (by rfl) (by rfl)
 example := leaf_tuple [] false "t".toList [.base .int, .base .str, .base .float] true (.value (.sc .none)) []
-  [.int 1, .str "a b".toList, .float "2.5".toList] (by rfl) (Or.inl rfl) (by rfl)
-example := leaf_vtuple [] false "t".toList (.base .bool) false (.value (.tuple [])) [] [.bool true, .bool false] (Or.inr (by simp)) (by rfl)
-example := leaf_literal [] false "m".toList [.int 0, .str "zero".toList, .int 1] .missing [] (.str "zero".toList) (by rfl) (by simp) (by rfl)
+  [.int 1, .str "a b".toList, .float "2.5".toList] (by rfl) (by rfl)
+example := leaf_vtuple [] false "t".toList (.base .bool) false (.value (.tuple [])) [] [.bool true, .bool false] (by rfl)
+example := leaf_literal [] false "m".toList [.int 0, .str "zero".toList, .int 1] .missing [] (.str "zero".toList) (by rfl) (by rfl)
 example := leaf_opt_none [] false "o".toList (.tuple [.base .int, .base .int]) .missing [] .missing (by rfl) (Or.inl rfl)
 example : ∃ eq, parseLeaf [] false .empty ⟨"e".toList, ⟨.sc (.base colorTy), true⟩, .value (.sc .none), []⟩
     (some (.val (encode (.sc (.enum "Color".toList "GREEN".toList))))) = .ok (.sc (.enum "Color".toList "GREEN".toList), eq) :=
-  leaf_loop [] false .empty _ _ (by rfl) (by rfl) (by rfl) (by rfl)
+  leaf_loop [] false .empty _ _ (by rfl) (by rfl) (by rfl)
 example : ∃ b, parseSpec [] false exOuter .empty (fileOf exX) = .ok (exX, b) :=
   parseSpec_loop [] exOuter exX false .empty _ exOuter_conforms exOuter_wf (by rfl) (fun _ _ => rfl)
 example : checkDefaults exOuter exOuter.names (fileOf exX) = none :=
@@ -987,7 +1083,8 @@ example : checkDefaults exOuter exOuter.names (fileOf exX) = none :=
 example := leafQuiet_ok [] ⟨"t".toList, ⟨.tuple [.base .path, .base colorTy], false⟩,
   .value (.tuple [.path "a".toList, .enum "Color".toList "RED".toList]), []⟩
   (.value (.tuple [.path "a".toList, .enum "Color".toList "RED".toList])) (by rfl)
-example := default_missing [] "w".toList (.vtuple (.base .bool)) .missing [] (by rfl) (by rfl)
+example := default_missing [] "w".toList (.vtuple (.base .bool)) .missing [] (by rfl)
+example := default_union [] true "u".toList [.int, .str] false .missing [] (.int 4) (by rfl) (by rfl) (by rfl)
 /-- `p: Optional[Path]` with the raw file value `"a/b"`: the engine converts the string default with `type=Path` -/
 example := emptyArgv_engine_ok [] ⟨.opt, .base .path, none, false, .sc (.str "a/b".toList), false⟩ ["--p".toList] "config.p".toList
   (.sc (.path "a/b".toList)) rfl (by rfl)
